@@ -373,6 +373,11 @@ def run(ctx):
                     pk = os.path.join(tmp, "ok%d.oct" % k)
                     e2e("octopus", ds, lambda: (bare.spec.to_octopus(pk, lons=lo, lats=la), pk)[1], read_octopus, res, key={"missing_expressible": False},
                         note="positions given as lons=/lats=")
+                    # the same records on a direction grid whose last label is 360 (north written 360, as read_funwave itself returns it)
+                    ds360 = ds.assign_coords(dir=ds.dir + (360.0 - float(ds.dir.max())))
+                    p360 = os.path.join(tmp, "s360_%d.spec" % k)
+                    e2e("swan", ds360, lambda: (ds360.spec.to_swan(p360), p360)[1], lambda q: read_swan(q, as_site=True),
+                        lambda ov: 2e-4 * np.nanmax(np.abs(ov)) + 0 * ov, note="north labelled 360")
                     ps = os.path.join(tmp, "sk%d.spec" % k)
                     e2e("swan", ds, lambda: (bare.spec.to_swan(ps, lons=lo, lats=la), ps)[1], lambda q: read_swan(q, as_site=True),
                         lambda ov: 2e-4 * np.nanmax(np.abs(ov)) + 0 * ov, note="positions given as lons=/lats=")
